@@ -130,6 +130,38 @@ func TestVerifC11Uploader(t *testing.T) {
 			}
 			seen[b] = true
 			f := &ufile{Build: b, Kind: "ok", End: end, Begin: end.Add(-5 * 24 * time.Hour), Counts: validUTF8Only(localNames(rnd, fmt.Sprintf("CAN%d", i)))} // (the legs are chained through JSON files, which cannot carry other names)
+			if i%25 == 13 && k == 0 && len(cfg.Programs) > 0 {
+				// a week with many distinct traces of one approved stack counter (a
+				// tool that reported many different bugs): a large, fully approved report
+				pc := cfg.Programs[0]
+				if len(pc.Stacks) == 0 {
+					pc.Stacks = append(pc.Stacks, verifref.CounterConfig{Name: "gopls/bug", Rate: 1})
+				}
+				f.Build = verifref.Build{Program: pc.Name, Version: "devel", GoVersion: "devel", GOOS: "linux", GOARCH: "amd64"}
+				if len(pc.Versions) > 0 {
+					f.Build.Version = pc.Versions[0]
+				}
+				if len(cfg.GoVersion) > 0 {
+					f.Build.GoVersion = cfg.GoVersion[0]
+				}
+				if len(cfg.GOOS) > 0 {
+					f.Build.GOOS = cfg.GOOS[0]
+				}
+				if len(cfg.GOARCH) > 0 {
+					f.Build.GOARCH = cfg.GOARCH[0]
+				}
+				b = f.Build
+				seen[b] = true
+				ntr := []int{40, 95, 130, 250}[(i/25)%4]
+				for tr := 0; tr < ntr; tr++ {
+					nme := pc.Stacks[0].Name
+					for fr := 0; len(nme) < 800; fr++ {
+						nme += fmt.Sprintf("\nexample.com/pkg%d/sub%d.(*T%d).method%d:+%d,+0x%x", tr, fr, fr, tr, fr+1, 16*fr+tr)
+					}
+					f.Counts[nme] = uint64(1 + tr)
+				}
+				res.Hit(fmt.Sprintf("many-traces:%d", ntr))
+			}
 			f.setName(k)
 			td.put(f, rnd)
 			exp := map[string]uint64{}
@@ -201,7 +233,7 @@ func TestVerifC11Uploader(t *testing.T) {
 		srv.close()
 		os.RemoveAll(td.root)
 	}
-	res.Require("build-approved", "build-outside-os-arch", "build-outside-other", "twin-build")
+	res.Require("build-approved", "build-outside-os-arch", "build-outside-other", "twin-build", "many-traces:95", "many-traces:130")
 	if err := res.Write(); err != nil {
 		t.Fatal(err)
 	}
